@@ -469,6 +469,17 @@ class Process:
             # again it necessarily belongs to another process.
             raise NoSuchProcess(self.pid, self._name)
 
+    def _raise_if_pid_0(self):
+        """setpriority(2), ioprio_set(2) and sched_setaffinity(2) take
+        PID 0 as "the calling process": refuse, as for signals.
+        """
+        if POSIX and self.pid == 0:
+            msg = (
+                "preventing changing process with PID 0 as it would "
+                "affect the calling process (os.getpid()) instead of PID 0"
+            )
+            raise ValueError(msg)
+
     @property
     def pid(self):
         """The process PID."""
@@ -788,6 +799,7 @@ class Process:
         if value is None:
             return self._proc.nice_get()
         else:
+            self._raise_if_pid_0()
             self._raise_if_pid_reused()
             self._proc.nice_set(value)
 
@@ -851,6 +863,7 @@ class Process:
                     raise ValueError(msg)
                 return self._proc.ionice_get()
             else:
+                self._raise_if_pid_0()
                 self._raise_if_pid_reused()
                 return self._proc.ionice_set(ioclass, value)
 
@@ -885,6 +898,7 @@ class Process:
             if cpus is None:
                 return sorted(set(self._proc.cpu_affinity_get()))
             else:
+                self._raise_if_pid_0()
                 self._raise_if_pid_reused()
                 if not cpus:
                     if hasattr(self._proc, "_get_eligible_cpus"):
